@@ -313,22 +313,6 @@ pub fn check_thread_local(
 ) -> Result<(), Fail> {
     for bi in &flat.builders {
         for (i, &t) in bi.tls.iter().enumerate() {
-            for w in &wins[t] {
-                if w.worker >= 0 || (bi.owner.is_none() && w.thread != caller) {
-                    let key = if bi.owner.is_some() {
-                        "tl-in-batch-on-worker"
-                    } else {
-                        "tl-off-caller"
-                    };
-                    return Err(Fail::keyed(
-                        key,
-                        format!(
-                            "thread-local system {} ran on thread {} (pool worker index {}), the dispatching thread is {}",
-                            flat.sys[t].sid(), w.thread, w.worker, caller
-                        ),
-                    ));
-                }
-            }
             // after every ordinary system of the same dispatch
             for &m in &bi.members {
                 for (wm, wt) in aligned(wins, m, t) {
@@ -359,6 +343,27 @@ pub fn check_thread_local(
                     wins[t].len(),
                     calls_with_tl
                 )));
+            }
+        }
+    }
+    // second pass (so that the order oracles above also apply to known-finding cases): the thread
+    for bi in &flat.builders {
+        for &t in &bi.tls {
+            for w in &wins[t] {
+                if w.worker >= 0 || (bi.owner.is_none() && w.thread != caller) {
+                    let key = if bi.owner.is_some() {
+                        "tl-in-batch-on-worker"
+                    } else {
+                        "tl-off-caller"
+                    };
+                    return Err(Fail::keyed(
+                        key,
+                        format!(
+                            "thread-local system {} ran on thread {} (pool worker index {}), the dispatching thread is {}",
+                            flat.sys[t].sid(), w.thread, w.worker, caller
+                        ),
+                    ));
+                }
             }
         }
     }
